@@ -245,8 +245,18 @@ def analyse_tu(tu):
     # multiunion_m: result length from sort_int_nodups
     mu = tu.func("multiunion_m")
     ok = False
+    # the result set: whatever multiunion_m returns (by role, not by name)
+    results = set()
+    for r0 in mu.walk():
+        if r0.k == "ReturnStmt" and r0.kids:
+            x = strip(r0.kids[0])
+            if x is not None and x.k == "DeclRefExpr" and x.rk == "VarDecl":
+                results.add(x.n)
+    if not results:
+        raise AnalysisError("anchor vanished: result variable of multiunion_m")
+    len_paths = set(v + "->len" for v in results)
     for a in mu.walk():
-        if a.k == "BinaryOperator" and a.v == "=" and path(a.kids[0]) == "result->len":
+        if a.k == "BinaryOperator" and a.v == "=" and path(a.kids[0]) in len_paths:
             r = strip(a.kids[1])
             # directly:  result->len = (int)sort_int_nodups(...)
             if r is not None and r.k == "CallExpr" and callee(r) == ("fn", "sort_int_nodups"):
